@@ -91,7 +91,9 @@ for sid, res in sorted(rows.items()):
     meta = {'seed': sid, 'breaks_property': own, 'needs_to_manifest': NEEDS.get(sid, ''),
             'verified': {'suite_with_change': 'passes (suite_with.txt: no FAILED line)', 'demo_without_change': open(d + '/demo_without.txt').read().strip().split('\n')[-1],
                          'demo_with_change': [l for l in open(d + '/demo_with.txt').read().split('\n') if l.startswith('test result')][:1]},
-            'ran': './seedtool.sh verify <agent SEED dir> %s ; ./seedtool.sh run %s  (quick tier of every claimed check with the patch applied to /repo, then reverted)' % (sid, sid),
+            'ran': ('./seedtool.sh verify <agent SEED dir> %s ; ./devseed.sh %s <props>  (quick tier of the listed checks with the patch applied to a scratch worktree of /repo at the same commit: MIR dumped from it, counterexamples replayed against a replayer built on it)' % (sid, sid))
+                   if any(lg.endswith('-dev.log') for (_, _, lg) in res.values()) else
+                   './seedtool.sh verify <agent SEED dir> %s ; ./seedtool.sh run %s  (quick tier of every claimed check with the patch applied to /repo, then reverted)' % (sid, sid),
             'checks': {p: {'exit': e, 'summary': s, 'log': lg} for p, (e, s, lg) in sorted(res.items())},
             'detected_by': sorted(p for p, (e, s, lg) in res.items() if e == 1),
             'withheld_by': sorted(p for p, (e, s, lg) in res.items() if e == 2),
